@@ -13,6 +13,11 @@
   A second model (`…Sh`) keeps the design BEFORE the repair: `get_signer` stored the key on the shared
   table entry and returned that shared object, so `sign` used whatever key the entry held at that moment.
 
+    * `sigver.security_context` / `import_rsa_key_from_file`   entity set-up: the key an entity signs with is
+                                            what its key file holds WHEN it is set up (no state keyed by path)
+    * `sigver.extract_rsa_key_from_x509_cert` + `verify_redirect_signature`: the verification key is the one in
+                                            the certificate passed with THIS call (no shared verification state)
+
   Concurrency: every logical thread runs a program (list of operations); an operation consists of one or
   two atomic actions at the points where the signing state is read or written (`get_signer`, `sign`,
   `verify`); a schedule is ANY list of thread numbers, each entry lets that thread perform its next atomic
@@ -44,9 +49,20 @@ inductive Op (κ α μ : Type) where
   | sign (alg : α) (msg : μ)
   /-- `verify_redirect_signature({…, SigAlg: alg, Signature: sig}, <own RSACrypto>, cert, sigkey)` -/
   | verify (alg : α) (msg : μ) (sig : Sig κ α μ) (cert sigkey : Option κ)
+  /-- the key file at `path` now holds key pair `content` (roll-over or first use, done by the deployment, in
+      the same slot) and a NEW entity is set up from it (`security_context` → `import_rsa_key_from_file`);
+      from now on the thread acts for that entity.  On the unchanged tree loading is a pure function of the
+      file content at load time, so the model does not look at `path`; it is part of the input because the
+      same path with changed content and the same content at different paths are different histories for
+      the implementation. -/
+  | setup (path : Nat) (content : κ)
 deriving DecidableEq, Repr
 
-/-- A logical thread: the key of the entity it acts for (`RSACrypto.key`) and its program. -/
+/-- The key of the entity a thread acts for after having carried out `ops`, starting with `k`. -/
+def keyAfter (k : κ) (ops : List (Op κ α μ)) : κ :=
+  ops.foldl (fun k op => match op with | .setup _ c => c | _ => k) k
+
+/-- A logical thread: the key of the entity it acts for at the start (`RSACrypto.key`) and its program. -/
 structure Thread (κ α μ : Type) where
   key : κ
   prog : List (Op κ α μ)
@@ -68,12 +84,15 @@ inductive Event (κ α μ : Type) where
   /-- a redirect URL carrying `SigAlg=alg`, the octets `msg` and the signature `sig` -/
   | signed (alg : α) (msg : μ) (sig : Sig κ α μ)
   | verified (ok : Bool)
+  /-- a new entity was set up -/
+  | setupDone
 deriving DecidableEq, Repr
 
 /-- Branch of the model taken by one atomic action. -/
 inductive Branch where
   | signNotAllowed | signNoSigner | signGetSigner | signSign
   | verifyNoSigner | verifyGetSigner | verifyExplicitKey | verifySignerKey
+  | setupEntity
 deriving DecidableEq, Repr
 
 /-- Gate point at which the action happens in the real code (`pad`: the operation ended without
@@ -83,7 +102,7 @@ inductive Point where
 deriving DecidableEq, Repr
 
 def Branch.point : Branch → Point
-  | .signNotAllowed => .pad
+  | .signNotAllowed | .setupEntity => .pad
   | .signNoSigner | .signGetSigner | .verifyNoSigner | .verifyGetSigner => .getSigner
   | .signSign => .sign
   | .verifyExplicitKey | .verifySignerKey => .verify
@@ -101,59 +120,72 @@ inductive Pending (κ α μ : Type) where
   | idle
   /-- between `signer = backend.get_signer(sigalg)` and `signer.sign(string_enc)` -/
   | signing (s : SignerObj κ α) (alg : α) (msg : μ)
-  /-- between `signer = crypto.get_signer(…)` and `signer.verify(string, _sign, _key)` -/
-  | verifying (s : SignerObj κ α) (alg : α) (msg : μ) (sig : Sig κ α μ) (key : Option κ)
+  /-- between `signer = crypto.get_signer(…)` and `signer.verify(string, _sign, _key)`; `cert`, `sigkey` are
+      the arguments of THIS call (`_key` = key of `cert` if given, else `sigkey`) -/
+  | verifying (s : SignerObj κ α) (alg : α) (msg : μ) (sig : Sig κ α μ) (cert sigkey : Option κ)
 deriving DecidableEq, Repr
 
+/-- `_key` of `verify_redirect_signature`. -/
+def explicitKey (cert sigkey : Option κ) : Option κ :=
+  match cert with
+  | some c => some c
+  | none => sigkey
+
 structure TState (κ α μ : Type) where
+  /-- key of the entity the thread currently acts for -/
   key : κ
+  /-- number of operations of the program completed so far (index of the current / next one) -/
+  pc : Nat
   rest : List (Op κ α μ)
   pend : Pending κ α μ
 deriving DecidableEq, Repr
 
-/-- One atomic action of one thread; `none` = the thread has finished its program. -/
+/-- One atomic action of one thread; `none` = the thread has finished its program.  An event
+    belongs to the operation with index `st.pc` (the value BEFORE the step). -/
 def stepThread (tb : Tables α) (st : TState κ α μ) :
     Option (TState κ α μ × Branch × Option (Event κ α μ)) :=
   match st.pend with
   | .signing s alg msg =>
       -- `signer.sign(string_enc)`: `key_sign(key or self.key, msg, self.digest)` with key=None
-      some ({ st with pend := .idle }, .signSign, some (.signed alg msg ⟨s.key, s.digest, msg⟩))
-  | .verifying s _ msg sig key =>
+      some ({ st with pend := .idle, pc := st.pc + 1 }, .signSign, some (.signed alg msg ⟨s.key, s.digest, msg⟩))
+  | .verifying s _ msg sig cert sigkey =>
       -- `signer.verify(string, _sign, _key)`: `key_verify(key or self.key, sig, msg, self.digest)`
-      some ({ st with pend := .idle },
-            (if key.isSome then .verifyExplicitKey else .verifySignerKey),
-            some (.verified (verifies (key.getD s.key) s.digest msg sig)))
+      some ({ st with pend := .idle, pc := st.pc + 1 },
+            (if (explicitKey cert sigkey).isSome then .verifyExplicitKey else .verifySignerKey),
+            some (.verified (verifies ((explicitKey cert sigkey).getD s.key) s.digest msg sig)))
   | .idle =>
     match st.rest with
     | [] => none
     | .sign alg msg :: r =>
         if !tb.allowed alg then
-          some ({ st with rest := r }, .signNotAllowed, some .refused)    -- raise before get_signer
+          some ({ st with rest := r, pc := st.pc + 1 }, .signNotAllowed, some .refused)  -- raise before get_signer
         else if !tb.hasSigner alg then
-          some ({ st with rest := r }, .signNoSigner, some .refused)      -- get_signer -> None -> raise
+          some ({ st with rest := r, pc := st.pc + 1 }, .signNoSigner, some .refused)    -- get_signer -> None -> raise
         else
           some ({ st with rest := r, pend := .signing ⟨alg, st.key⟩ alg msg }, .signGetSigner, none)
     | .verify alg msg sig cert sigkey :: r =>
         if !tb.hasSigner alg then
           -- get_signer -> None; `SigAlg in SIGNER_ALGS` false -> falls off the end (None, falsy)
-          some ({ st with rest := r }, .verifyNoSigner, some (.verified false))
+          some ({ st with rest := r, pc := st.pc + 1 }, .verifyNoSigner, some (.verified false))
         else
-          some ({ st with rest := r,
-                          pend := .verifying ⟨alg, sigkey.getD st.key⟩ alg msg sig
-                                    (match cert with | some c => some c | none => sigkey) },
+          some ({ st with rest := r, pend := .verifying ⟨alg, sigkey.getD st.key⟩ alg msg sig cert sigkey },
                 .verifyGetSigner, none)
+    | .setup _ content :: r =>
+        -- new entity: `RSACrypto(import_rsa_key_from_file(key_file))`, the file holding `content` now
+        some ({ st with rest := r, pc := st.pc + 1, key := content }, .setupEntity, some .setupDone)
 
 /-- Process-wide state of the repaired design: only the threads' own locals change; the table
-    `SIGNER_ALGS` is never written (it is the parameter `tb`). -/
+    `SIGNER_ALGS` is never written (it is the parameter `tb`); there is no shared verification state and
+    no state keyed by key-file path. -/
 structure State (κ α μ : Type) where
   ts : List (TState κ α μ)
   /-- gate points passed, in order -/
   trace : List (Nat × Branch)
-  /-- operation results, in order of completion -/
-  out : List (Nat × Event κ α μ)
+  /-- operation results `(thread, index of the operation in its program, result)`, in order of completion -/
+  out : List (Nat × Nat × Event κ α μ)
 
 def init (threads : List (Thread κ α μ)) : State κ α μ :=
-  { ts := threads.map (fun th => { key := th.key, rest := th.prog, pend := .idle }), trace := [], out := [] }
+  { ts := threads.map (fun th => { key := th.key, pc := 0, rest := th.prog, pend := .idle }), trace := [], out := [] }
 
 def step (tb : Tables α) (g : State κ α μ) (t : Nat) : State κ α μ :=
   match g.ts[t]? with
@@ -163,7 +195,7 @@ def step (tb : Tables α) (g : State κ α μ) (t : Nat) : State κ α μ :=
     | none => g
     | some (st', b, ev) =>
       { ts := g.ts.set t st', trace := g.trace ++ [(t, b)],
-        out := g.out ++ (match ev with | some e => [(t, e)] | none => []) }
+        out := g.out ++ (match ev with | some e => [(t, st.pc, e)] | none => []) }
 
 /-- Run a schedule (any list of thread numbers). -/
 def run (tb : Tables α) (threads : List (Thread κ α μ)) (sched : List Nat) : State κ α μ :=
@@ -191,6 +223,7 @@ deriving DecidableEq, Repr
 
 structure TStateSh (κ α μ : Type) where
   key : κ
+  pc : Nat
   rest : List (Op κ α μ)
   pend : PendingSh κ α μ
 deriving DecidableEq, Repr
@@ -200,10 +233,10 @@ structure StateSh (κ α μ : Type) where
   /-- `SIGNER_ALGS[alg].key` -/
   signerKey : α → Option κ
   trace : List (Nat × Branch)
-  out : List (Nat × Event κ α μ)
+  out : List (Nat × Nat × Event κ α μ)
 
 def initSh (threads : List (Thread κ α μ)) : StateSh κ α μ :=
-  { ts := threads.map (fun th => { key := th.key, rest := th.prog, pend := .idle }),
+  { ts := threads.map (fun th => { key := th.key, pc := 0, rest := th.prog, pend := .idle }),
     signerKey := fun _ => none, trace := [], out := [] }
 
 /-- One atomic action in the shared design: result thread state, new shared keys, branch, event. -/
@@ -212,13 +245,13 @@ def stepThreadSh (tb : Tables α) (keys : α → Option κ) (st : TStateSh κ α
   match st.pend with
   | .signing h alg msg =>
       -- the key is whatever the shared entry holds NOW
-      some ({ st with pend := .idle }, keys, .signSign,
+      some ({ st with pend := .idle, pc := st.pc + 1 }, keys, .signSign,
             some (match keys h with
                   | some k => .signed alg msg ⟨k, h, msg⟩
                   | none => .crashed))
   | .verifying h _ msg sig key =>
       let k := match key with | some k => some k | none => keys h
-      some ({ st with pend := .idle }, keys,
+      some ({ st with pend := .idle, pc := st.pc + 1 }, keys,
             (if key.isSome then .verifyExplicitKey else .verifySignerKey),
             some (.verified (match k with | some k => verifies k h msg sig | none => false)))
   | .idle =>
@@ -226,20 +259,21 @@ def stepThreadSh (tb : Tables α) (keys : α → Option κ) (st : TStateSh κ α
     | [] => none
     | .sign alg msg :: r =>
         if !tb.allowed alg then
-          some ({ st with rest := r }, keys, .signNotAllowed, some .refused)
+          some ({ st with rest := r, pc := st.pc + 1 }, keys, .signNotAllowed, some .refused)
         else if !tb.hasSigner alg then
-          some ({ st with rest := r }, keys, .signNoSigner, some .refused)
+          some ({ st with rest := r, pc := st.pc + 1 }, keys, .signNoSigner, some .refused)
         else
           -- `signer.key = self.key` on the shared entry
           some ({ st with rest := r, pend := .signing alg alg msg },
                 (fun a => if a = alg then some st.key else keys a), .signGetSigner, none)
     | .verify alg msg sig cert sigkey :: r =>
         if !tb.hasSigner alg then
-          some ({ st with rest := r }, keys, .verifyNoSigner, some (.verified false))
+          some ({ st with rest := r, pc := st.pc + 1 }, keys, .verifyNoSigner, some (.verified false))
         else
-          some ({ st with rest := r,
-                          pend := .verifying alg alg msg sig (match cert with | some c => some c | none => sigkey) },
+          some ({ st with rest := r, pend := .verifying alg alg msg sig (explicitKey cert sigkey) },
                 (fun a => if a = alg then some (sigkey.getD st.key) else keys a), .verifyGetSigner, none)
+    | .setup _ content :: r =>
+        some ({ st with rest := r, pc := st.pc + 1, key := content }, keys, .setupEntity, some .setupDone)
 
 def stepSh (tb : Tables α) (g : StateSh κ α μ) (t : Nat) : StateSh κ α μ :=
   match g.ts[t]? with
@@ -249,7 +283,7 @@ def stepSh (tb : Tables α) (g : StateSh κ α μ) (t : Nat) : StateSh κ α μ 
     | none => g
     | some (st', keys', b, ev) =>
       { ts := g.ts.set t st', signerKey := keys', trace := g.trace ++ [(t, b)],
-        out := g.out ++ (match ev with | some e => [(t, e)] | none => []) }
+        out := g.out ++ (match ev with | some e => [(t, st.pc, e)] | none => []) }
 
 def runSh (tb : Tables α) (threads : List (Thread κ α μ)) (sched : List Nat) : StateSh κ α μ :=
   sched.foldl (stepSh tb) (initSh threads)
